@@ -47,7 +47,7 @@ RULE = (
     "the stub contract), and the concentration of the j-th entry along that axis is alpha[j]; no poison left; dtype "
     "and requires_grad of the tensor follow p.  distinct = (descriptor, flags); non-trivial = >= 2 parameters."
 )
-BOUNDS = "<= 4 foldable input parameters of shape (K<=3, S<=3) + sum weights (2-D, and 3-D reduced to 2-D), axis in [-ndim, ndim), alpha scalar or list, 4 flag pairs, compile + 2 resets"
+BOUNDS = "fixed list + (thorough) 400 seeded random parameter sets; <= 4 foldable input parameters of shape (K<=3, S<=4) + sum weights (2-D, and 3-D reduced to 2-D), axis in [-ndim, ndim), alpha scalar or list, 4 flag pairs, compile + 2 resets"
 OUTSIDE = "random initialisers of complex tensors (torch fills them through a real view; not modelled by the stubs); distributional claims (moments of normal samples, the Dirichlet density): the stubs only carry the call arguments; torch's samplers are trusted; integer dtypes"
 ASSUMPTIONS = [
     "aten.normal_/uniform_/_sample_dirichlet are nondeterministic stubs: fresh symbols constrained by their contract",
@@ -174,8 +174,52 @@ def _all(tier):
     return out
 
 
+def _random_members(seed, n):
+    """random parameter sets: 1-4 foldable input parameters and 1-2 sum weights, random initialisers, axes,
+    learnable flags, shapes (thorough tier)"""
+    rnd = random.Random(7919 * seed + 17)
+    out = []
+
+    def spec(shape):
+        t = rnd.choice(["uniform", "normal", "const", "array", "dirichlet", "dirichlet"])
+        if t == "uniform":
+            a = rnd.choice([-2.0, 0.0, 0.5, 2.0])
+            d = {"t": "uniform", "a": a, "b": a + rnd.choice([0.5, 1.0, 3.0])}
+        elif t == "normal":
+            d = {"t": "normal", "m": rnd.choice([-1.0, 0.0, 5.0]), "s": rnd.choice([0.125, 1.0, 2.0])}
+        elif t == "const":
+            d = {"t": "const", "v": rnd.choice([0.5, -1.25, 3.0])}
+        elif t == "array":
+            d = {"t": "array", "np": rnd.choice(["float64", "float32"])}
+        else:
+            ax = rnd.randrange(-len(shape), len(shape))
+            n_ = shape[ax]
+            alpha = rnd.choice([1.0, 0.5, [float(1 + j) for j in range(n_)]])
+            d = {"t": "dirichlet", "alpha": alpha, "axis": ax}
+        if rnd.random() < 0.25:
+            d["learnable"] = False
+        return d
+
+    for _ in range(n):
+        K, S, Ko = rnd.choice([1, 2, 3]), rnd.choice([2, 3, 4]), rnd.choice([1, 2, 3])
+        ins = [spec((K, S)) for _ in range(rnd.randint(1, 4))]
+        sums = []
+        for _ in range(rnd.randint(1, 2)):
+            if rnd.random() < 0.3:
+                R = rnd.choice([2, 3])
+                d = spec((Ko, K, R))
+                d["rank3"] = R
+            else:
+                d = spec((Ko, K))
+            sums.append(d)
+        out.append({"kind": "init", "inputs": ins, "sums": sums, "K": K, "S": S, "Ko": Ko})
+    return out
+
+
 def cases(tier, seed):
     allc = _all(tier)
+    if tier != "quick":
+        allc = allc + _random_members(seed, 400)
     out = []
     flags = [(False, False), (True, False), (False, True), (True, True)]
     for i, c in enumerate(allc):
